@@ -1,7 +1,9 @@
 // verif-harness — drives the real memcrs crate for the correspondence checks.
+mod cfgp;
 mod conc;
 mod conn;
 mod gen;
+mod limit;
 mod seq;
 
 use std::collections::HashMap;
@@ -104,6 +106,77 @@ fn main() {
             fs::write(arg(&args, "--monitor").expect("--monitor"), monitor).unwrap();
             if let Some(p) = arg(&args, "--stats") {
                 fs::write(p, format!("{{\"conc_cases\": {}, \"conc_steps\": {}, \"stuck\": {}}}\n", cases, steps, stuck)).unwrap();
+            }
+        }
+        "cfg-child" => {
+            cfgp::child(args[2..].to_vec());
+        }
+        "cfg-gen" => {
+            let seed: u64 = arg(&args, "--seed").unwrap_or("1").parse().unwrap();
+            let n: usize = arg(&args, "--configs").unwrap_or("6").parse().unwrap();
+            let steps: usize = arg(&args, "--steps").unwrap_or("40").parse().unwrap();
+            let base_port: u16 = 12000 + ((std::process::id() as u64 * 53) % 15000) as u16;
+            let cfgs = cfgp::configs(seed, n, base_port);
+            let mut handles = Vec::new();
+            for cfg in cfgs {
+                handles.push(std::thread::spawn(move || {
+                    let mut t = String::new();
+                    let mut o = String::new();
+                    cfgp::run_config(&cfg, seed, steps, &mut t, &mut o);
+                    (t, o, cfg.label())
+                }));
+            }
+            let mut trace = String::new();
+            let mut obs = String::new();
+            let mut labels = Vec::new();
+            for h in handles {
+                let (t, o, l) = h.join().expect("config");
+                trace.push_str(&t);
+                obs.push_str(&o);
+                labels.push(l);
+            }
+            fs::write(arg(&args, "--trace").expect("--trace"), trace).unwrap();
+            fs::write(arg(&args, "--obs").expect("--obs"), obs).unwrap();
+            if let Some(p) = arg(&args, "--stats") {
+                fs::write(p, format!("{{\"configurations\": {}}}\n", labels.len())).unwrap();
+            }
+        }
+        "limit-gen" => {
+            let seed: u64 = arg(&args, "--seed").unwrap_or("1").parse().unwrap();
+            let cases: usize = arg(&args, "--cases").unwrap_or("4").parse().unwrap();
+            let rounds: usize = arg(&args, "--rounds").unwrap_or("0").parse().unwrap();
+            let mut trace = String::new();
+            let mut obs = String::new();
+            let mut kinds: HashMap<String, u64> = HashMap::new();
+            // independent servers: run the cases side by side
+            let mut handles = Vec::new();
+            for c in 0..cases {
+                handles.push(std::thread::spawn(move || {
+                    let mut rng = gen::Rng::new(seed.wrapping_mul(5003).wrapping_add(c as u64));
+                    let limit = 1 + (c as u32 % 4);
+                    let r = if rounds > 0 { rounds } else { 3 * limit as usize + 2 };
+                    let mut t = String::new();
+                    let mut o = String::new();
+                    let mut k: HashMap<String, u64> = HashMap::new();
+                    limit::run_case(&format!("l-{}-{}", seed, c), limit, r, &mut rng, 2, &mut t, &mut o, &mut k);
+                    (t, o, k)
+                }));
+            }
+            for h in handles {
+                let (t, o, k) = h.join().expect("limit case");
+                trace.push_str(&t);
+                obs.push_str(&o);
+                for (kk, v) in k {
+                    *kinds.entry(kk).or_insert(0) += v;
+                }
+            }
+            fs::write(arg(&args, "--trace").expect("--trace"), trace).unwrap();
+            fs::write(arg(&args, "--obs").expect("--obs"), obs).unwrap();
+            if let Some(p) = arg(&args, "--stats") {
+                let mut keys: Vec<_> = kinds.iter().collect();
+                keys.sort();
+                let body: Vec<String> = keys.iter().map(|(k, v)| format!("\"end_{}\": {}", k, v)).collect();
+                fs::write(p, format!("{{{}}}\n", body.join(", "))).unwrap();
             }
         }
         "conc-sweep" => {
